@@ -185,6 +185,10 @@ def main():
 
     broken = []          # names of obligations (theorems / ties / extraction) that no longer check
     log = []
+    # checks may be started concurrently: serialise translator + build (they write coq/Extracted and *.vo)
+    import fcntl
+    lockf = open(os.path.join(C.COQ, '.build.lock'), 'w')
+    fcntl.flock(lockf, fcntl.LOCK_EX)
     # 1. translator
     rc, out, _ = C.run([sys.executable, os.path.join(C.VERIF, 'tools', 'extract.py')], timeout=300)
     log.append(out.strip())
@@ -242,6 +246,8 @@ def main():
             broken.append('coqchk: ' + out3[-300:])
         else:
             checker_cmd += ' ; coqchk -silent -o -Q . FF FF.Properties.%s' % pid
+    fcntl.flock(lockf, fcntl.LOCK_UN)
+    lockf.close()
     # 3. hygiene
     hy = hygiene_scan()
     if hy:
